@@ -3,7 +3,9 @@ package props
 import (
 	"errors"
 	"fmt"
+	"runtime/debug"
 	"sort"
+	"sync"
 	"time"
 
 	"go.sia.tech/core/types"
@@ -427,7 +429,7 @@ func runC07(e *sim.Env) {
 	for i := 0; i < steps; i++ {
 		e.Step()
 		v2ok := r.tip.Height+1 >= r.net.Allow()
-		op := e.Pick(8, 3, 3, 3, 2, 2, 2, 1, 2)
+		op := e.Pick(8, 3, 3, 3, 2, 2, 2, 1, 2, 2)
 		label := fmt.Sprintf("op%d", i)
 		switch op {
 		case 0: // fund
@@ -621,6 +623,110 @@ func runC07(e *sim.Env) {
 			e.Fault("restart")
 			e.Shape("restart")
 			e.Nontrivial = true
+		case 9: // several callers fund at the same time
+			if !v2ok {
+				continue
+			}
+			sp, _ := r.modelSpendable()
+			k := e.Range(2, 4)
+			type job struct {
+				amount      types.Currency
+				unconfirmed bool
+				txn, before types.V2Transaction
+				basis       types.ChainIndex
+				toSign      []int
+				err         error
+				crash       string
+			}
+			var jobs []*job
+			for j := 0; j < k; j++ {
+				var amount types.Currency
+				switch e.Pick(1, 2, 2, 4) {
+				case 0:
+					amount = sp
+				case 1:
+					amount = sp.Div64(2).Add(types.NewCurrency64(1)) // two of these cannot both succeed
+				case 2:
+					amount = sp.Div64(uint64(k))
+				default:
+					amount = sp.Div64(uint64(e.Range(2, 20)))
+				}
+				jb := &job{amount: amount, unconfirmed: e.Chance(1, 4)}
+				if !amount.IsZero() {
+					jb.txn.SiacoinOutputs = []types.SiacoinOutput{{Address: r.net.Actors[1].Addr, Value: amount}}
+				}
+				jb.before = jb.txn.DeepCopy()
+				jobs = append(jobs, jb)
+			}
+			poolBefore, resBefore := r.poolSpent(), r.reserved()
+			// the store seam sits inside the wallet's critical section: yielding
+			// there lets every other caller run up to the wallet's lock
+			r.st.yield = sim.YieldPoint
+			// in the lock-yield flavour every Lock / Unlock inside the wallet and
+			// the manager is a seeded scheduling point as well
+			e.WithSchedule(200, func() {
+				var wg sync.WaitGroup
+				for _, jb := range jobs {
+					jb := jb
+					wg.Add(1)
+					go func() {
+						defer wg.Done()
+						defer func() {
+							if x := recover(); x != nil {
+								jb.crash = fmt.Sprintf("%v\n%s", x, debug.Stack())
+							}
+						}()
+						jb.basis, jb.toSign, jb.err = r.w.FundV2Transaction(&jb.txn, jb.amount, jb.unconfirmed)
+					}()
+				}
+				wg.Wait()
+			})
+			r.st.yield = nil
+			e.Fault("concurrent-funding")
+			e.Nontrivial = true
+			claimed := map[types.SiacoinOutputID]int{}
+			ok := 0
+			for ji, jb := range jobs {
+				lbl := fmt.Sprintf("%s concurrent#%d", label, ji)
+				if jb.crash != "" {
+					if sim.PanicInSUT(jb.crash) {
+						e.Violationf("C07.panic", "concurrent-fund", "FundV2Transaction panicked under concurrent use: %.1500s", jb.crash)
+					}
+					panic("C07 concurrent phase: " + jb.crash)
+				}
+				e.Logf("%s FundV2(%v, unconfirmed=%v) -> %d inputs err=%v", lbl, jb.amount, jb.unconfirmed, len(jb.txn.SiacoinInputs), jb.err)
+				if jb.err != nil {
+					if fmt.Sprint(gen.Enc(jb.txn)) != fmt.Sprint(gen.Enc(jb.before)) {
+						e.Violationf("C07.failed-reserves-nothing", "txn-modified", "%s: a failed FundV2Transaction modified the transaction", lbl)
+					}
+					continue
+				}
+				ok++
+				var ins []types.SiacoinElement
+				for _, in := range jb.txn.SiacoinInputs {
+					ins = append(ins, in.Parent)
+					if other, dup := claimed[in.Parent.ID]; dup {
+						e.Violationf("C07.double-allocation", "concurrent-callers", "two concurrent FundV2Transaction calls (#%d and #%d of %d) were both given output %v", other, ji, len(jobs), in.Parent.ID)
+					}
+					claimed[in.Parent.ID] = ji
+				}
+				r.checkSelection(lbl, ins, jb.unconfirmed, poolBefore, resBefore)
+				var change types.Currency
+				for _, o := range jb.txn.SiacoinOutputs[len(jb.before.SiacoinOutputs):] {
+					change = change.Add(o.Value)
+				}
+				if !sumEls(ins).Equals(jb.amount.Add(change)) {
+					e.Violationf("C07.value-conservation", "inputs-vs-amount", "%s: selected inputs sum to %v, amount %v + change %v", lbl, sumEls(ins), jb.amount, change)
+				}
+				if len(ins) > 0 {
+					rv := r.reserve(lbl, ins)
+					outstanding = append(outstanding, &fundedV2{txn: jb.txn, basis: jb.basis, toSign: jb.toSign, rv: rv})
+				}
+			}
+			e.Shape("concurrent-fund", fmt.Sprint(len(jobs)), fmt.Sprint(ok))
+			if ok >= 2 {
+				e.Probe("concurrent_funds_both_succeeded")
+			}
 		case 8: // a foreign payment to the wallet enters the pool
 			if !v2ok {
 				continue
@@ -660,10 +766,10 @@ var _ = chain.ErrMissingBlock
 
 func init() {
 	register(&Prop{
-		ID: "C07", Run: runC07, Quick: 700, Thorough: 20000, Level: "exploration",
-		Rule:        "one run = drawn wallet options (defrag threshold 0-40, max inputs for defrag 0-40, max defrag outputs 0-12, reservation 1s-6h) and a chain that leaves the wallet with mature, immature, pool-spent and unconfirmed outputs; then 10-40 drawn operations: FundV2Transaction (0, 1H, exactly spendable, spendable+1H, drawn; with/without unconfirmed), sign+broadcast / keep outstanding / release, Redistribute, SplitUTXO, blocks confirming the pool, clock jumps around the reservation period, reorgs, restart (new manager with empty pool + new wallet on the same store re-loading broadcast sets), foreign payments into the pool; after every operation: selection rules (owned, mature, unspent, not pool-spent, not reserved by an outstanding request), value conservation, failed calls change nothing, signed results accepted by the pool, and Balance().Spendable == sum(SpendableOutputs()) == independent model == largest fundable amount; distinct = abstract trace; non-trivial = a clock jump, reorg or restart",
+		ID: "C07", Run: runC07, Flavour: "instrumented", Quick: 700, Thorough: 20000, Level: "exploration",
+		Rule:        "one run = drawn wallet options (defrag threshold 0-40, max inputs for defrag 0-40, max defrag outputs 0-12, reservation 1s-6h) and a chain that leaves the wallet with mature, immature, pool-spent and unconfirmed outputs; then 10-40 drawn operations: FundV2Transaction (0, 1H, exactly spendable, spendable+1H, drawn; with/without unconfirmed), sign+broadcast / keep outstanding / release, Redistribute, SplitUTXO, blocks confirming the pool, clock jumps around the reservation period, reorgs, restart (new manager with empty pool + new wallet on the same store re-loading broadcast sets), foreign payments into the pool, and 2-4 FundV2Transaction calls issued from concurrent goroutines (amounts that cannot all succeed; a seeded scheduler decides who proceeds at the store seam and, in the instrumented flavour, at every Lock / Unlock), whose results must be pairwise disjoint; after every operation: selection rules (owned, mature, unspent, not pool-spent, not reserved by an outstanding request), value conservation, failed calls change nothing, signed results accepted by the pool, and Balance().Spendable == sum(SpendableOutputs()) == independent model == largest fundable amount; distinct = abstract trace; non-trivial = a clock jump, reorg or restart",
 		Real:        []string{"wallet.SingleAddressWallet (funding, signing, redistribute, split, release, broadcast, restart)", "chain.Manager", "chain.DBStore"},
 		Stub:        []string{"wallet store: harness walletStore", "syncer: recording stub", "disk: simdisk.DB"},
-		Assumptions: []string{"sequential interleaving of wallet calls in this check; lock-level interleavings belong to the instrumented flavour"},
+		Assumptions: []string{"concurrent callers are interleaved at the wallet-store seam only (a seeded scheduling point inside the store call the wallet makes while holding its lock); in the lock-yield flavour every Lock / Unlock of the wallet's and the manager's mutexes is one too; other lock-level interleavings are not explored"},
 	})
 }
